@@ -195,13 +195,16 @@ def eval_bool(e, assign) -> bool:
     return v if pol else not v
 
 
-def path_condition(cfg, nid, keep=None, rename=None):
+def path_condition(cfg, nid, keep=None, rename=None, expand=None):
     """Canonical form of the condition under which node `nid` is reached:
     (sorted atom names, frozenset of satisfying assignments as bit tuples),
     over the atoms accepted by `keep(text, node)`; other atoms are projected
     out existentially.  Two guards written differently (if-form vs early
     exit, De Morgan variants, `is not None` vs `not ... is None`) compare equal."""
     tests = cfg.guards(nid)
+    if expand is not None:
+        # atoms are read through the local definitions (`passed` -> `check_result.check_passed`): independent of local names
+        tests = [(expand.expand(t), pol) for t, pol in tests]
     atoms = {}
     for t, _ in tests:
         bool_atoms(t, atoms)
@@ -350,7 +353,8 @@ class Expander:
                     self.flows.setdefault(n.func.value.id, []).append(a)
         for m in multi | self.params:
             self.defs.pop(m, None)
-        self.unique = {k: v[0] for k, v in self.defs.items() if len(v) == 1}
+        # a local that is filled after its definition (appends / item stores) is not equal to its initial value
+        self.unique = {k: v[0] for k, v in self.defs.items() if len(v) == 1 and k not in self.flows}
 
     def expand(self, node, _depth=0, _stack=()):
         import copy as _copy
@@ -474,3 +478,37 @@ def canon_function_text(fn_node, keep_params=True) -> str:
     fn = _CanonCompare().visit(fn)
     ast.fix_missing_locations(fn)
     return ast.unparse(fn)
+
+
+def canonical_locals(func_node):
+    """Names for the locals a developer may rename freely, derived from what they *are*:
+    loop variables by the iterable they range over (KEY_/VAL_/ELEM_<iterable>), accumulator lists / dicts by the
+    keyword of the call they finally flow into (ACC_<keyword>).  Unique-definition locals are handled by Expander."""
+    ex = Expander(func_node)
+    mapping = {}
+
+    def ident(e):
+        t = norm(ex.expand(e))
+        return "".join(ch if ch.isalnum() else "_" for ch in t).strip("_")
+
+    for n in walk_no_nested(func_node):
+        if isinstance(n, (ast.For, ast.AsyncFor)):
+            it = n.iter
+            if isinstance(it, ast.Call) and isinstance(it.func, ast.Attribute) and it.func.attr == "items" and isinstance(n.target, ast.Tuple) \
+                    and len(n.target.elts) == 2 and all(isinstance(t, ast.Name) for t in n.target.elts):
+                base = ident(it.func.value)
+                mapping.setdefault(n.target.elts[0].id, f"KEY_{base}")
+                mapping.setdefault(n.target.elts[1].id, f"VAL_{base}")
+            elif isinstance(n.target, ast.Name):
+                mapping.setdefault(n.target.id, f"ELEM_{ident(it)}")
+    # accumulators: locals initialised with an empty container that appear as (part of) a keyword argument later on
+    accs = {name for name, defs in ex.defs.items() if len(defs) == 1 and isinstance(defs[0], (ast.List, ast.Dict, ast.Set)) and
+            not (getattr(defs[0], "elts", None) or getattr(defs[0], "keys", None))}
+    for n in walk_no_nested(func_node):
+        if isinstance(n, ast.Call):
+            for k in n.keywords:
+                if k.arg:
+                    for x in ast.walk(k.value):
+                        if isinstance(x, ast.Name) and x.id in accs and x.id not in mapping:
+                            mapping[x.id] = f"ACC_{k.arg}"
+    return mapping
